@@ -1095,28 +1095,56 @@ def _cbytes(vals):
 
 
 def check_df(c, ev, k, marker, vbytes, inptr, inlen, outptr, indata, tag, ST):
-    """Hash_df: init; update(header {1,0,0,1,0[,marker]}); update(V,32); update(in,inlen); finalize(out); free.  Returns (next index, digest event)"""
-    if len(ev) < k + 6:
-        c("SEQ", False, "%s-df" % tag, "", "Hash_df call sequence incomplete: %s" % [e[2] for e in ev[k:]])
+    """Hash_df as one hash session: init(h); update(h, ...)*; finalize(h, out) [; free(h), here or later].  What counts is the byte stream
+    the session absorbs - header {1,0,0,1,0[,marker]}, then V (32 bytes), then the additional input - however it is cut into update
+    calls (a header built in one piece or two, an empty update left out).  Returns (next index, digest event)"""
+    if len(ev) <= k or ev[k][2] != "tinyjambu_hash_init":
+        c("SEQ", False, "%s-df" % tag, "", "Hash_df does not start with hash_init: %s" % [e[2] for e in ev[k:k + 3]])
         return None
-    e = ev[k:k + 6]
-    names = [x[2] for x in e]
-    want = ["tinyjambu_hash_init", "tinyjambu_hash_update", "tinyjambu_hash_update", "tinyjambu_hash_update", "tinyjambu_hash_finalize", "tinyjambu_hash_free"]
-    if names != want:
-        c("SEQ", False, "%s-df" % tag, "", "Hash_df is %s, expected %s" % (names, want))
+    h = ev[k][3][0]
+    j = k + 1
+    got = []            # the absorbed stream: ("b", byte) per byte of a constant-length update, ("s", ptr, len) for an update of symbolic length
+    while j < len(ev) and ev[j][2] == "tinyjambu_hash_update" and ev[j][3][0] == h:
+        e = ev[j]
+        if e[3][2] == "0":
+            pass            # an empty update absorbs nothing
+        elif e[4] is not None and e[3][2].isdigit():
+            got.extend(("b", tuple(x)) for x in e[4])
+        else:
+            got.append(("s", e[3][1], e[3][2]))
+        j += 1
+    if j >= len(ev) or ev[j][2] != "tinyjambu_hash_finalize" or ev[j][3][0] != h:
+        c("SEQ", False, "%s-df" % tag, "", "Hash_df is %s: no finalize of the same hash state after its updates" % [e[2] for e in ev[k:j + 1]])
         return None
-    h = e[0][3][0]
-    hdr = _cbytes([1, 0, 0, 1, 0] + ([] if marker == 0xFF else [marker]))
-    okh = e[1][3][0] == h and e[1][4] == hdr and e[1][3][2] == str(len(hdr))
+    fin = ev[j]
+    j += 1
+    freed = False
+    if j < len(ev) and ev[j][2] == "tinyjambu_hash_free" and ev[j][3] == (h,):
+        freed = True
+        j += 1
+    else:
+        # one hash state serving several sessions: freed once, after the last of them
+        freed = any(e[2] == "tinyjambu_hash_free" and e[3] == (h,) for e in ev[j:])
+    hdr = [("b", tuple(x)) for x in _cbytes([1, 0, 0, 1, 0] + ([] if marker == 0xFF else [marker]))]
+    nh = len(hdr)
+    okh = got[:nh] == hdr
     c("SEQ", okh, "%s-header" % tag, "Hash_df header: counter 1, 256 bits to return%s" % ("" if marker == 0xFF else ", marker 0x%02X" % marker),
-      "Hash_df header bytes are %s (length %s), expected %s" % (None if e[1][4] is None else [gf2.is_const(list(b)) for b in e[1][4]], e[1][3][2], [1, 0, 0, 1, 0] + ([] if marker == 0xFF else [marker])))
-    okv = e[2][3] == (h, repr(Lf.s(ST)), "32") and (vbytes is None or e[2][4] == vbytes)
-    c("DEP", okv, "%s-V" % tag, "all 32 bytes of V are hashed in", "the working value V is not absorbed as specified: %s, %s" % (e[2][3], first_byte_diff(e[2][4], vbytes) if vbytes is not None else ""))
-    oki = e[3][3][0] == h and e[3][3][1] == inptr and e[3][3][2] == inlen and (indata is None or e[3][4] == indata)
-    c("DEP", oki, "%s-input" % tag, "then the additional input (%s, %s)" % (inptr, inlen), "additional input differs: %s (expected %s, %s) %s" % (e[3][3], inptr, inlen, first_byte_diff(e[3][4], indata) if indata is not None else ""))
-    okf = e[4][3] == (h, outptr) and e[5][3] == (h,) and h.startswith("alloca")
-    c("SEQ", okf, "%s-out" % tag, "digest -> %s; hash state freed" % outptr, "Hash_df output goes to %s (expected %s)" % (e[4][3], outptr))
-    return k + 6, e[4]
+      "Hash_df header bytes are %s, expected %s" % ([gf2.is_const(list(x[1])) if x[0] == "b" else x[1:] for x in got[:nh]], [1, 0, 0, 1, 0] + ([] if marker == 0xFF else [marker])))
+    vgot = got[nh:nh + 32]
+    okv = len(vgot) == 32 and all(x[0] == "b" for x in vgot) and (vbytes is None or tuple(x[1] for x in vgot) == tuple(tuple(x) for x in vbytes))
+    c("DEP", okv, "%s-V" % tag, "all 32 bytes of V are hashed in", "the working value V is not absorbed as specified: %s" %
+      (first_byte_diff(tuple(x[1] for x in vgot), vbytes) if vbytes is not None and len(vgot) == 32 and all(x[0] == "b" for x in vgot) else [x[:1] + x[2:] if x[0] == "b" else x for x in vgot][:3]))
+    rest = got[nh + 32:]
+    if inlen == "0":
+        oki = not rest
+    elif indata is not None and inlen.isdigit():
+        oki = rest == [("b", tuple(x)) for x in indata] or rest == [("s", inptr, inlen)]
+    else:
+        oki = rest == [("s", inptr, inlen)]
+    c("DEP", oki, "%s-input" % tag, "then the additional input (%s, %s)" % (inptr, inlen), "additional input differs: %s (expected %s, %s)" % ([x if x[0] == "s" else "byte" for x in rest][:4], inptr, inlen))
+    okf = fin[3] == (h, outptr) and freed and h.startswith("alloca")
+    c("SEQ", okf, "%s-out" % tag, "digest -> %s; hash state freed" % outptr, "Hash_df output goes to %s (expected %s)%s" % (fin[3], outptr, "" if freed else "; the local hash state is never freed"))
+    return j, fin
 
 
 def check_prng(ck_ob, mod, label, generate=True):
